@@ -8,6 +8,20 @@ ALL = [f'C{i:02d}' for i in range(1, 21)]
 
 # property -> (level text, level note, technique, design section)
 CHECKS = {
+    'C17': (
+        'Lean 4: Spec/Vendor.lean transcribes the vendors\' gate definitions (IonQ QIS gates generic in angle / amplitude types, IonQ native GPI / GPI2 / MS / ZZ, '
+        'AQT R / MS / Z) and the little-endian outcome encoding. Props.C17: exact kernel-decided identities of the QIS gates in Q(zeta_8) (matrices of h, y, t, v; '
+        'v*v = x, v*vi = 1, s*s = z, t*t = s, h*h = 1, rx(pi) = -iX, ry(pi), rz(pi), rx(pi/2)^2 = rx(pi), v = e^{i pi/4} rx(pi/2), xx/yy/zz(pi) = -i P(x)P; an unknown '
+        'name is an error) and, for every register width and outcome, decoding the little-endian integer of a bit assignment returns the assignment and conversely '
+        '(C17_leBits_leValue, C17_leValue_leBits: every outcome goes to the right qubit). T2: the payload produced by cirq_ionq.Serializer (QIS and native gate sets, '
+        'single and many-circuit jobs) and by the AQT sampler\'s JSON generator is interpreted gate by gate with those definitions by the compiled Lean interpreter '
+        'and compared, up to global phase, with the Lean ordered product of the circuit\'s operation matrices (C01); measurement metadata is compared with the keys and '
+        'targets of the circuit; cirq_ionq.Job.results().to_cirq_result() on little-endian histograms (QPU and simulator) is compared with the model of the encoding.',
+        'Trusted: Lean kernel; harness + driver; Spec/Vendor.lean as transcription of the public gate documentation; IonQ pauliexp, HTTP layers, Pasqal payloads '
+        'and vendor-side parameter ranges are not modelled; parameterised gates are exercised on floats only.',
+        'Lean 4 proof (kernel-decided exact gate identities; induction for the outcome encoding) + differential correspondence on real payloads',
+        'DESIGN.md §3 C17',
+    ),
     'C16': (
         'Lean 4 theorems for every length / table: bit packing round-trips for every number of repetitions (C16_unpack_pack, by induction over '
         'byte chunks with the little-endian byte lemma bitsLE_byteLE), a key\'s records (repetitions x instances x qubits) stored as one packed '
